@@ -171,6 +171,16 @@ def run(ctx):
                 f"{m.loc(n)}: observers are notified through a dynamically looked-up hook (`{ast.unparse(n)[:60]}`); "
                 "which method runs is not decidable statically, so the notification rules are not evaluated"
             )
+        snap = _snapshot_notification(ctx, disp, "update")
+        if snap is not None:
+            m_, lp_, src_ = snap
+            chk.violation(
+                "R10.a", m_, lp_,
+                f"the update hooks are collected first (`{src_[:70]}`) and called afterwards: the notification walks a snapshot "
+                "of the subscriber list, so an observer that an earlier one unsubscribes during the notification is still "
+                "notified after unsubscribe() has returned (and one subscribed meanwhile is not)",
+                loc=m_.loc(lp_),
+            )
         if not any(i["rule"] == "R10.a" and i["verdict"] != "holds" for i in chk.instances):
             chk.violation("R10.a", dispatch, None, "no notification loop found: accepted dispatches notify nobody")
     else:
@@ -341,6 +351,9 @@ def run(ctx):
                         if from_caller and all(o in from_caller or o == ("elemfresh",) for o in origins):
                             chk.ok("R10.c", fi.qualname, ev.loc, "forwards a caller-supplied observer to subscribe()")
                             continue
+                    if fi.name == "__init__" and fi.cls is not None and repo.is_subclass(fi.cls.qualname, obs.qualname) and _deferred_subscribe(fi) is ev.node:
+                        chk.ok("R10.c", fi.qualname, ev.loc, "subscribes itself after the base constructor (subscribe=False) has run the guard")
+                        continue
                     chk.violation("R10.c", fi, ev.node, "subscribe() is called from outside DispatcherObserver.__init__: the singleton guard is bypassed", loc=ev.loc)
     # guard precedes subscribe in DispatcherObserver.__init__
     for p in eng.paths(obs_init, obs):
@@ -435,6 +448,8 @@ def run(ctx):
                     idx = tgt.params.index("subscribe") - 1
                     if 0 <= idx < len(call.args) and isinstance(call.args[idx], ast.Name) and call.args[idx].id == "subscribe":
                         ok = True
+            if not ok and _deferred_subscribe(init) is not None and fw and isinstance(fw[0].value, ast.Constant) and fw[0].value.value is False:
+                ok = True  # decided by the flag after the base constructor returned
             if ok:
                 chk.ok("R10.c", init.qualname, init.loc(call), "subscribe flag forwarded to the base constructor")
             else:
@@ -547,7 +562,74 @@ def run(ctx):
     chk.floor("R10.f", n_f, 10, "observer classes with an update")
 
 
+def _deferred_subscribe(init) -> ast.Call | None:
+    """`super().__init__(..., subscribe=False)` followed, as a later statement of
+    the same constructor body, by `if subscribe: <dispatcher>.subscribe(self)`:
+    the base constructor has run its singleton guard, the flag decides as if it
+    had been forwarded.  Returns the subscribe call."""
+    if init is None or isinstance(init.node, ast.Lambda) or "subscribe" not in init.params or not init.params:
+        return None
+    me = init.params[0]
+    body = init.node.body
+    sup_at = None
+    for i, st in enumerate(body):
+        if isinstance(st, ast.Expr) and isinstance(st.value, ast.Call) and isinstance(st.value.func, ast.Attribute) and st.value.func.attr == "__init__" \
+                and isinstance(st.value.func.value, ast.Call) and isinstance(st.value.func.value.func, ast.Name) and st.value.func.value.func.id == "super":
+            kw = [k for k in st.value.keywords if k.arg == "subscribe"]
+            if kw and isinstance(kw[0].value, ast.Constant) and kw[0].value.value is False:
+                sup_at = i
+    if sup_at is None:
+        return None
+    for st in body[sup_at + 1:]:
+        if isinstance(st, ast.If) and isinstance(st.test, ast.Name) and st.test.id == "subscribe" and not st.orelse and len(st.body) == 1:
+            x = st.body[0]
+            if (
+                isinstance(x, ast.Expr) and isinstance(x.value, ast.Call) and isinstance(x.value.func, ast.Attribute) and x.value.func.attr == "subscribe"
+                and len(x.value.args) == 1 and isinstance(x.value.args[0], ast.Name) and x.value.args[0].id == me
+            ):
+                return x.value
+    return None
+
+
+def _snapshot_notification(ctx, disp, hook):
+    """(method, loop, source text) when a Dispatcher method calls the elements of a
+    list of bound `<subscriber>.<hook>` methods built from self.subscribers beforehand."""
+    for m in disp.methods.values():
+        if isinstance(m.node, ast.Lambda):
+            continue
+        for lp in own_nodes(m.node):
+            if not (isinstance(lp, ast.For) and isinstance(lp.target, ast.Name)):
+                continue
+            called = any(isinstance(c, ast.Call) and isinstance(c.func, ast.Name) and c.func.id == lp.target.id for st in lp.body for c in ast.walk(st))
+            if not called:
+                continue
+            src = ctx.norm.xexpr(m, lp.iter)
+            eager = isinstance(src, ast.ListComp)
+            if isinstance(src, ast.Call) and isinstance(src.func, ast.Name) and src.func.id in ("list", "tuple") and len(src.args) == 1:
+                src, eager = src.args[0], True
+            if (
+                eager and isinstance(src, (ast.ListComp, ast.GeneratorExp)) and len(src.generators) == 1 and isinstance(src.elt, ast.Attribute) and src.elt.attr == hook
+                and isinstance(src.generators[0].target, ast.Name) and isinstance(src.elt.value, ast.Name) and src.elt.value.id == src.generators[0].target.id
+                and ast.unparse(src.generators[0].iter).endswith("subscribers")
+            ):
+                return m, lp, ast.unparse(src)
+    return None
+
+
 def _resolve_expr(ev, expr):
+    # `*args` of an inlined forwarder whose call passed exactly one extra positional argument
+    if isinstance(expr, ast.Starred) and isinstance(expr.value, ast.Name):
+        fr = ev.frame
+        fn = fr.fi.node
+        va = getattr(getattr(fn, "args", None), "vararg", None)
+        call = fr.call_node
+        if va is not None and va.arg == expr.value.id and fr.parent is not None and isinstance(call, ast.Call):
+            n_named = len(fn.args.posonlyargs + fn.args.args) - (1 if fr.fi.cls is not None and not fr.fi.is_static else 0)
+            extra = call.args[n_named:]
+            if len(extra) == 1 and not isinstance(extra[0], ast.Starred):
+                class _E:  # the argument lives in the caller's frame
+                    frame = fr.parent
+                return _resolve_expr(_E, extra[0])
     if isinstance(expr, ast.Name):
         root, chain, fr = resolve_root(ev, expr.id, [])
         return (root, tuple(chain), fr.id if fr else None)
@@ -693,6 +775,19 @@ def _create_or_get(ctx, disp):
             rv = last.node.value
         if rv is None:
             continue
+        if isinstance(rv, ast.IfExp):
+            arms = (rv.body, rv.orelse)
+            none_arm = next((x for x in arms if isinstance(x, ast.Constant) and x.value is None), None)
+            other = next((x for x in arms if x is not none_arm), None)
+            if none_arm is not None and isinstance(other, ast.Name) and any(other.id == lp.target.id for lp in loops):
+                chk.violation(
+                    "R10.e", fi, p.events[-1].node,
+                    f"the search returns `{ast.unparse(rv)[:70]}` from inside the loop: it ends at the first subscriber reached there, and "
+                    "when that one does not pass the test the answer is None although a later subscriber may match - a second "
+                    "observer is then created and subscribed",
+                    loc=p.events[-1].loc, path=p.describe(),
+                )
+                return
         lv = next((lp.target.id for lp in loops if isinstance(rv, ast.Name) and rv.id == lp.target.id), None)
         if lv is not None:
             n_ret += 1
